@@ -265,11 +265,36 @@ def unit_misc(unit):
                 run("columns.window", case, lambda: T().window(over="k", **kw))
                 run("columns.sort_by", case, lambda: T().sort_by("v"))
                 run("columns.sort_by.desc", case, lambda: T().sort_by(["k", "v"], reverse=[True, False], na_last=False))
+        # rows of a table are vectors too: read a row, change a column in place (None / wider value / replacement), read again
+        homog = [{"x": [1, 2], "y": [3, 4]}, {"x": [0.5, 1.5], "y": [2.5, 3.5]}, {"x": ["a", "b"], "y": ["c", "d"]}, {"x": [True, False], "y": [False, True]}]
+        writes = [("view-none", lambda t: t["x"].__setitem__(1, None)), ("cell-none", lambda t: t.__setitem__((0, "y"), None)),
+                  ("view-wider", lambda t: t["x"].__setitem__(0, 2.5)), ("cell-wider", lambda t: t.__setitem__((1, "y"), 2.5)),
+                  ("replace", lambda t: setattr(t, "x", [None, None])), ("column", lambda t: t.__setitem__((slice(None), "y"), [None, 1j]))]
+        for cols in homog:
+            for wl, w in writes:
+                for first_read in (True, False):
+                    def thunk():
+                        t = Table({k: list(v) for k, v in cols.items()})
+                        if first_read:
+                            t[0]; [tuple(r) for r in t]; t.shape
+                        w(t)
+                        rows = [t[0], t[1]] + [r.copy() for r in t]
+                        return rows
+                    try:
+                        rows = thunk()
+                    except Exception:
+                        agg.skipped["operation-raises"] += 1
+                        continue
+                    agg.evals += 1; agg.transitions += 3; agg.states += 1; agg.nontrivial += 1
+                    for r in rows:
+                        check_vec(agg, f"row.after-{wl}", r, {"table": cols, "write": wl, "row_read_before_write": first_read})
         cells = ["", "1", "2.5", "x", " ", "nan", "1e3", "True"]
         for n in (1, 2, 3):
             for col in itertools.product(cells, repeat=n):
                 text = "h,g\n" + "".join(f"{c},7\n" for c in col)
                 run("columns.read_csv", {"text": text}, lambda: read_csv(io.StringIO(text)))
+                jag = "h,g,f\n" + "".join((f"{c},7,8\n" if i % 2 == 0 else f"{c},7\n") for i, c in enumerate(col))
+                run("columns.read_csv.jagged", {"text": jag}, lambda: read_csv(io.StringIO(jag)))
     elif what == "methods":
         for kind, vals in (("str", ["a b", "Cd", None]), ("int", [5, -3, None]), ("float", [0.5, 2.0, None]), ("date", [D1, D2, None])):
             pytype = type(vals[0])
